@@ -18,7 +18,7 @@ META = dict(
     functions=['scared.analysis.base:BaseAttack._set_convergence/_compute_batch_size/_batch_loop_compute/_final_compute/_compute_convergence_traces/compute_results', 'scared.analysis.base:_BaseAnalysis.run'],
     bounds=dict(quick='step lemma: one _batch_loop_compute / _final_compute from SYMBOLIC integer state (first point p0, processed traces q, convergence step; all values); '
                       'run level: real CPAAttack and SNRAttack runs on seeded integer traces, N in {7, 10, 16}, convergence_step in {2,3,5,7,11,20}, container batch size in {2,3,4,16}, one and two run() calls',
-                thorough='N up to 24'),
+                thorough='N in {7, 10, 13, 16, 24, 32}'),
     assumptions=['step lemma: compute() is replaced by a stub returning fresh symbolic results (the convergence bookkeeping does not look inside)', 'run level: column i is matched against the scores of a fresh attack on every prefix (numerical equality, 1e-9)',
                  'spacing is required between regular points; the remainder column appended at the end of a run is exempt on both sides'],
     outside=['trace sets above 24 traces at run level (the step lemma covers all counter values)'],
@@ -33,7 +33,7 @@ def prepare(tier, seed):
 def jobs(tier, seed):
     js = [dict(name='step-lemma', kind='step')]
     for cls in ('CPAAttack', 'SNRAttack'):
-        for n in ((7, 10, 16) if tier == 'quick' else (7, 10, 16, 24)):
+        for n in ((7, 10, 16) if tier == 'quick' else (7, 10, 13, 16, 24, 32)):
             js.append(dict(name=f'run-{cls}-n{n}', kind='run', cls=cls, n=n, seed=seed))
     return js
 
